@@ -375,12 +375,14 @@ macro_rules! perp_world {
                             let flags = DecreasePositionFlags { is_insolvent_close_allowed: b(3)?, is_liquidation_order: b(4)?, is_cap_size_delta_usd_allowed: b(5)? };
                             let pr = prices_at(6)?;
                             if !self.ps.contains_key(&pid) { return None; }
+                            let reports_before = self.m.insufficient_funding_log.len();
                             Some(match self.atomic(|m, ps| ps.get_mut(&pid).unwrap().ops(m).decrease(pr, size, None, wd, flags)?.execute()) {
-                                Ok(r) => format!("ok {} {} {} {} {} {} {} {} {} {} {} {} {} {} {} {}", r.size_delta_usd(), r.size_delta_in_tokens(), r.price_impact_value(), r.price_impact_diff(),
+                                // last field: was `on_insufficient_funding_fee_payment` called by this decrease
+                                Ok(r) => format!("ok {} {} {} {} {} {} {} {} {} {} {} {} {} {} {} {} {}", r.size_delta_usd(), r.size_delta_in_tokens(), r.price_impact_value(), r.price_impact_diff(),
                                     r.pnl().pnl(), r.pnl().uncapped_pnl(), r.withdrawable_collateral_amount(), r.should_remove() as u8, r.output_amount(), r.secondary_output_amount(),
                                     r.claimable_collateral_for_holding().output_token_amount(), r.claimable_collateral_for_holding().secondary_output_token_amount(),
                                     r.claimable_collateral_for_user().output_token_amount(), r.claimable_collateral_for_user().secondary_output_token_amount(),
-                                    crate::perp::step_tag(r.insolvent_close_step()), fees_str(r.fees())),
+                                    crate::perp::step_tag(r.insolvent_close_step()), fees_str(r.fees()), (self.m.insufficient_funding_log.len() > reports_before) as u8),
                                 Err(e) => crate::perp::perp_err(&e),
                             })
                         }
@@ -715,7 +717,9 @@ macro_rules! perp_world {
                             let near = new && size != 0 && r.chance(1, 3);
                             let cval = if near { let need = ((size / SCALE) / 1_000_000 * (self.mcf / (UNIT / 1_000_000))) as u64; need / 100 * (90 + r.below(80)) + r.below(3) }
                                 else { (size / SCALE) as u64 / (1 + r.below(30)) + r.below(2_000_000_000) };
-                            let c = (if cl { cval / self.px.max(1) } else { cval }) as $U;
+                            // a third of the increases of EXISTING positions add size without adding collateral (fees are then taken
+                            // from the position's collateral: the collateral delta is negative)
+                            let c = if !new && size != 0 && r.chance(1, 3) { 0 } else { (if cl { cval / self.px.max(1) } else { cval }) as $U };
                             self.pending = vec![format!("perp chk {sid} {pid} 1 1 {pr}"), format!("perp chk {sid} {pid} 1 0 {pr}"), format!("perp inc {sid} {pid} {c} {size} {pr}")];
                             if near && r.chance(1, 2) {
                                 // bisect the collateral towards the acceptance threshold, starting from 3x leverage
@@ -773,6 +777,36 @@ macro_rules! perp_world {
                                 _ => { let v = (*r.pick(&[0u64, 1_000, 50_000_000, 30_000_000_000]) + r.below(1000)) as $U; let il = r.chance(1, 2);
                                     format!("perp swap {sid} {} {} {pr}", il as u8, if il { v / self.px.max(1) as $U } else { v }) }
                             })
+                        }
+                        9 => {
+                            // funding squeeze: a position of the PAYING (heavier) side whose collateral token is NOT its pnl token,
+                            // funding accrues beyond its collateral, the price moves in its favour, it is closed (the profit tokens
+                            // cover the funding shortfall: reported as an insufficient payment), then a receiver claims
+                            let tot = |q: TestPool<$U>| q.long_amount.saturating_add(q.short_amount);
+                            let (ol, os) = (tot(s.m.open_interest.0), tot(s.m.open_interest.1));
+                            let pay_long = ol >= os;
+                            let pid = self.next_pid; self.next_pid += 1;
+                            let size = (*r.pick(&[20_000_000_000u64, 500_000_000_000]) + r.below(1_000_000_000)) as $U * SCALE;
+                            let cval = (size / SCALE) as u64 / r.range(6, 12);
+                            let cl = !pay_long;
+                            let c = (if cl { cval / self.px.max(1) } else { cval }) as $U;
+                            let recv: Option<u64> = open.iter().find(|(_, p)| p.is_long != pay_long && p.size_in_usd != 0).map(|(k, _)| *k);
+                            let days = *r.pick(&[30u64, 90, 180, 365]);
+                            let px0 = self.price_str(r);
+                            self.px = if pay_long { self.px * r.range(130, 220) / 100 } else { (self.px * r.range(35, 75) / 100).max(1) };
+                            let px1 = self.price_str(r);
+                            let rpid = recv.unwrap_or(self.next_pid);
+                            self.pending = vec![format!("perp inc {sid} {rpid} 0 0 {px1}"), format!("perp dec {sid} {pid} {size} 0 1 0 1 {px1}"),
+                                format!("perp ufund {sid} {px0}"), format!("perp ubor {sid} {px0}"), format!("perp tick {sid} {}", days * 86400),
+                                format!("perp inc {sid} {pid} {c} {size} {px0}")];
+                            if recv.is_none() {
+                                // nobody on the receiving side yet: someone opens there first
+                                self.next_pid += 1;
+                                let rs = size / 2; let rc = ((rs / SCALE) as u64 / 4) as $U;
+                                self.pending.push(format!("perp inc {sid} {rpid} {rc} {rs} {px0}"));
+                                self.pending.push(format!("perp open {sid} {rpid} {} 0", (!pay_long) as u8));
+                            }
+                            Some(format!("perp open {sid} {pid} {} {}", pay_long as u8, cl as u8))
                         }
                         8 if !open.is_empty() => {
                             // collateral-only operations (size delta 0) in a row on ONE position, preferably of the side that
@@ -847,7 +881,10 @@ struct Track {
     /// funding collected / claimed per token, and whether a shortfall was reported (C08)
     collected: [BigInt; 2],
     claimed: [BigInt; 2],
-    short: bool,
+    /// Σ reported shortfalls of funding fee payments per token (fee charged − collected in the market, with a report)
+    short: [BigInt; 2],
+    /// an unreported shortfall was already flagged (do not repeat it on every later step)
+    unreported: bool,
     cfg: Vec<String>,
 }
 
@@ -995,7 +1032,13 @@ pub fn run_bin(prop: &str) {
                         if resid[other] != BigInt::from(0) || resid_c < BigInt::from(0) || resid_c > fund {
                             out.oracle_fail(&format!("decrease: accounted holdings minus outputs left residual {:?} (collateral token index {kc}); funding fee {fund}", resid), &req);
                         }
-                        if resid_c < fund { tr.short = true; out.stat("funding.short"); }
+                        // the funding fee is collected in collateral tokens; whatever is missing must have been REPORTED through
+                        // `on_insufficient_funding_fee_payment` (recorded by the harness market; flag at the end of the response)
+                        let reported = rt.get(26) == Some(&"1");
+                        if resid_c < fund {
+                            if reported { tr.short[kc] += &fund - &resid_c; out.stat("funding.short_reported"); if kc != kp && bi(rt[12]) > BigInt::from(0) { out.stat("funding.short_covered_by_profit_tokens"); } }
+                            else { out.oracle_fail(&format!("funding fee {fund} was charged but only {resid_c} stayed in the market and NO insufficient funding fee payment was reported (tokens paid to the holding account: {} / {})", rt[11], rt[12]), &req); tr.unreported = true; }
+                        } else if reported { out.oracle_fail("an insufficient funding fee payment was reported although the fee was collected in full", &req); }
                         tr.collected[kc] += &resid_c; tr.claimed[0] += bi(rt[23]); tr.claimed[1] += bi(rt[24]);
                         if rt[15] != "_" { out.stat(&format!("insolvent.{}", rt[15])); }
                         if bi(rt[23]) + bi(rt[24]) != BigInt::from(0) { out.stat("funding.claimed"); }
@@ -1019,15 +1062,16 @@ pub fn run_bin(prop: &str) {
                     _ => { if l1 != l0 { out.oracle_fail("an operation without token flows changed the accounted holdings", &req); } }
                 }
                 // funding residual: literal clause and refined invariant
-                if matches!(op, "inc" | "dec" | "ufund") && !tr.short {
+                if matches!(op, "inc" | "dec" | "ufund") && !tr.unreported {
                     let pend = if is64 { db64.get(&sid).and_then(w64::pending_funding) } else { db128.get(&sid).and_then(w128::pending_funding) };
                     if let Some((pay, clm)) = pend {
                         for k in 0..2 {
-                            let resid = &tr.collected[k] - &tr.claimed[k];
-                            if &resid + &pay[k] - &clm[k] < BigInt::from(0) { out.oracle_fail(&format!("claimable funding is not backed: collected - claimed + pending payable - pending claimable = {} for token {k}", &resid + &pay[k] - &clm[k]), &req); }
+                            // reported shortfalls count as collected: the invariant is tied to the reports, per token
+                            let resid = &tr.collected[k] - &tr.claimed[k] + &tr.short[k];
+                            if &resid + &pay[k] - &clm[k] < BigInt::from(0) { out.oracle_fail(&format!("claimable funding is not backed: collected + reported shortfalls - claimed + pending payable - pending claimable = {} for token {k}", &resid + &pay[k] - &clm[k]), &req); }
                             if resid < BigInt::from(0) {
                                 if -&resid <= pay[k] { out.known("F-C08", "funding claimed before it was collected (deficit covered by pending payable funding of untouched payers)", &req); out.stat("funding.residual_negative"); }
-                                else { out.oracle_fail("funding residual negative beyond the pending payable funding", &req); }
+                                else { out.oracle_fail("funding residual negative beyond the pending payable funding and the reported shortfalls", &req); }
                             }
                         }
                     }
